@@ -99,8 +99,8 @@ where
         let span = if states == 0 {
             // EMPTY reduction
             SourceSpan {
-                start: context.span().start,
-                end: context.span().start,
+                start: context.span().end,
+                end: context.span().end,
             }
         } else {
             SourceSpan {
